@@ -211,6 +211,7 @@ def run(ctx):
     ctx.floor(r_dedup, n_dd, 2, "multi-row cascades")
 
     pred_rule(ctx, syn)
+    scope_rule(ctx, prog)
     from props.c01 import multiarms_rule
     multiarms_rule(ctx, syn, rid="C02.MULTIARMS")   # the cascades find dependents through these entries
 
@@ -594,3 +595,29 @@ def pred_rule(ctx, syn, rid="C02.PRED"):
                         ctx.report(r_pred, "truth-table", "retain predicate `%s` %s an entry with set %s and data %s the removed pair; it must keep exactly the entries that differ from (set, data)" % (
                             unparse(cl["body"]), "keeps" if keep else "drops", "==" if s == 0 else "!=", "==" if d == 0 else "!="), ard.file, cl["l"], {"s_equal": s == 0, "d_equal": d == 0, "keeps": keep})
 
+
+
+# ---------------------------------------------------------------------- SCOPE
+def scope_rule(ctx, prog, rid="C02.SCOPE"):
+    """removing one key or one data item clears that item's row of the metadata indices (TripleRelationMap: set -> item ->
+    annotations) and nothing else: the clean-up is remove_second(set, item).  remove_all(set) is the clean-up of a whole
+    dataset - in remove_key / remove_data it wipes the rows of the sibling keys and data, whose annotations then
+    disappear from the reverse look-ups although they are alive."""
+    r = ctx.rule(rid, "remove_key and remove_data clear index rows with TripleRelationMap::remove_second(set, item) only; no set-wide remove_all on a triple map is reachable in them")
+    n = 0
+    for name in ("remove_key", "remove_data"):
+        bs = prog.find_bodies(r"^annotationstore::AnnotationStore::%s$" % name)
+        if len(bs) != 1:
+            ctx.anchor_missing(r, "AnnotationStore::" + name)
+            continue
+        b = bs[0]
+        ctx.functions_analysed.add(b.id)
+        sec = [t for _, t in b.calls() if re.search(r"store::TripleRelationMap::<.*>::remove_second$", mirq.callee_of(t)[0] or "")]
+        alls = [t for _, t in b.calls() if re.search(r"store::TripleRelationMap::<.*>::(remove_all|clear)$", mirq.callee_of(t)[0] or "")]
+        n += len(sec)
+        r.hit(name, sample={"fn": name, "row_cleanups": len(sec), "set_wide_cleanups": len(alls)})
+        for t in alls:
+            ctx.report(r, "%s|set-wide" % name, "AnnotationStore::%s clears a metadata index with %s(set): the rows of every other key / data item of that dataset go with it, so live annotations about them vanish from annotations_as_metadata() and a later removal does not cascade to them" % (name, (mirq.callee_of(t)[0] or "").split("::")[-1]), b.file, t.get("line"))
+        if not sec:
+            ctx.report(r, "%s|no-row-cleanup" % name, "AnnotationStore::%s no longer clears the item's own row of the metadata index (remove_second)" % name, b.file, b.line)
+    ctx.floor(r, n, 2, "row clean-ups")
